@@ -214,8 +214,9 @@ func encodingCiphertextASN1(C1 *_sm2ec.SM2P256Point, c2, c3 []byte) ([]byte, err
 	c1 := C1.Bytes()
 	var b cryptobyte.Builder
 	b.AddASN1(asn1.SEQUENCE, func(b *cryptobyte.Builder) {
-		addASN1IntBytes(b, c1[1:len(c1)/2+1])
-		addASN1IntBytes(b, c1[len(c1)/2+1:])
+		// a coordinate may be zero (x1 = 0 is the abscissa of a curve point), unlike the r and s of a signature
+		b.AddASN1BigInt(new(big.Int).SetBytes(c1[1 : len(c1)/2+1]))
+		b.AddASN1BigInt(new(big.Int).SetBytes(c1[len(c1)/2+1:]))
 		b.AddASN1OctetString(c3)
 		b.AddASN1OctetString(c2)
 	})
